@@ -15,9 +15,6 @@ package ro
 //@ site RepeatWith
 //@   assume-ctx-set subscribe : lastCtx is written by the completion callback of every attempt; if an attempt errors the destination is closed and the final Complete is dropped by the gate
 
-//@ site SampleWhenOLD
-//@   assume-ctx-set next@tick : `last` is read only when hasValue is set, and both are written together under mu by the source callback
-
 // ---- declared hand-off sites (C08): the only places where a notification changes goroutine ----
 
 //@ site Delay
